@@ -132,6 +132,72 @@ func pipelineCases(seed uint64, thorough bool) []pcase {
 			}
 		}
 	}
+	// ---- narrow inputs ----
+	contrast := func(w, h, pat int) image.Image {
+		im := image.NewNRGBA(image.Rect(0, 0, w, h))
+		for y := 0; y < h; y++ {
+			for x := 0; x < w; x++ {
+				var on bool
+				switch pat {
+				case 0: // 1-pixel checkerboard: largest AC coefficients
+					on = (x+y)%2 == 0
+				case 1: // vertical stripes of width 2
+					on = (x/2)%2 == 0
+				case 2: // 4x4 blocks alternating: largest DCs, largest WHT input
+					on = (x/4+y/4)%2 == 0
+				case 3: // horizontal lines
+					on = y%2 == 0
+				case 4: // 16x16 macroblock checkerboard + random speckle
+					on = (x/16+y/16)%2 == 0 != (r.Intn(9) == 0)
+				}
+				v := uint8(0)
+				if on {
+					v = 255
+				}
+				im.SetNRGBA(x, y, color.NRGBA{v, v, v, 255})
+			}
+		}
+		return im
+	}
+	for pat := 0; pat < 5; pat++ {
+		for qi, q := range []float32{100, 100, 0, 40} {
+			pat, qi, q := pat, qi, q
+			m := []int{0, 4, 6, 3}[qi]
+			add(fmt.Sprintf("contrast/p%d/48x32/q%v/m%d/v%d", pat, q, m, qi), contrast(48, 32, pat), func(o *webp.EncoderOptions) {
+				o.Quality, o.Method = q, m
+				if qi == 1 {
+					o.QMin, o.QMax = 100, 100
+				}
+				if qi == 2 {
+					o.QMin, o.QMax = 0, 0
+				}
+				o.FilterStrength = []int{0, 60, 100, 30}[qi]
+				o.FilterType = qi % 2
+				o.Segments = 1 + qi
+			})
+		}
+	}
+	for _, n := range []int{1, 2, 15, 16, 17, 33} {
+		n := n
+		for k, sz := range [][2]int{{1, n}, {n, 1}} {
+			img := mkImage(r.Fork(), "noise", sz[0], sz[1], []string{"", "noise"}[(n+k)%2])
+			add(fmt.Sprintf("thin/%dx%d/lossy", sz[0], sz[1]), img, func(o *webp.EncoderOptions) { o.Quality, o.Method = 80, n%7 })
+			add(fmt.Sprintf("thin/%dx%d/lossless", sz[0], sz[1]), img, func(o *webp.EncoderOptions) { o.Lossless, o.Method = true, n%7 })
+		}
+	}
+	for k := 1; k <= 15; k++ {
+		k := k
+		w := 16 + k
+		// with alpha: decoded through buildNRGBA / UpsampleLinePairNRGBA (batch + tail pixels)
+		add(fmt.Sprintf("width/%dx9/alpha", w), mkImage(r.Fork(), "blocks", w, 9, "grad"), func(o *webp.EncoderOptions) { o.Quality, o.Method = 85, k%5 })
+		add(fmt.Sprintf("width/%dx10/opaque", w), mkImage(r.Fork(), "noise", w, 10, ""), func(o *webp.EncoderOptions) { o.Quality, o.Method = 60, (k+2)%7 })
+	}
+	for m := 0; m <= 6; m++ {
+		m := m
+		add(fmt.Sprintf("lossless-method/m%d/40x24", m), mkImage(r.Fork(), []string{"blocks", "gradient", "noise"}[m%3], 40, 24, []string{"", "grad", "binary"}[m%3]), func(o *webp.EncoderOptions) {
+			o.Lossless, o.Method, o.Quality = true, m, float32(20+12*m)
+		})
+	}
 	return cs
 }
 
@@ -179,6 +245,9 @@ func pipelineWorker() {
 	seed := uint64(1)
 	fmt.Sscan(os.Getenv("C13_SEED"), &seed)
 	thorough := os.Getenv("C13_TIER") == "thorough"
+	if os.Getenv("C13_AVX2") == "off" {
+		webp.VerifArchForceSSE2()
+	}
 	out := bufio.NewWriter(os.Stdout)
 	defer out.Flush()
 	fmt.Fprintf(out, "build goarch=%s variants=%d avx2=%v\n", runtime.GOARCH, len(webp.VerifArchVariants()), webp.VerifArchHasAVX2())
@@ -375,9 +444,10 @@ func makeOverlay(repo, dir string) (string, map[string]int, error) {
 	return op, stats, os.WriteFile(op, js, 0o644)
 }
 
-func runWorker(bin string, seed int64, tier, streams string) workerOut {
+func runWorker(bin string, seed int64, tier, streams string, extraEnv ...string) workerOut {
 	cmd := exec.Command(bin)
 	cmd.Env = append(os.Environ(), "C13_MODE=pipeline", fmt.Sprintf("C13_SEED=%d", seed), "C13_TIER="+tier, "C13_STREAMS="+streams)
+	cmd.Env = append(cmd.Env, extraEnv...)
 	var stderr bytes.Buffer
 	cmd.Stderr = &stderr
 	outb, err := cmd.Output()
@@ -412,6 +482,7 @@ type overlayWork struct {
 	err      error  // overlay construction
 	buildOut string // non-empty: the overlay build failed
 	normal   workerOut
+	sse2only workerOut // normal build, AVX2 switched off
 	portable workerOut
 }
 
@@ -437,6 +508,12 @@ func overlayStart(c *Ctx) *overlayWork {
 			w.normal = runWorker(self, seed, tier, streams)
 		}()
 		defer func() { <-nd }()
+		sd := make(chan struct{})
+		go func() {
+			defer close(sd)
+			w.sse2only = runWorker(self, seed, tier, streams, "C13_AVX2=off")
+		}()
+		defer func() { <-sd }()
 		ovDir := "/tmp/arch-overlay"
 		defer os.RemoveAll(ovDir)
 		ov, stats, err := makeOverlay(repoDir(), ovDir)
@@ -514,6 +591,27 @@ func pipeline(c *Ctx, w *overlayWork) {
 			}
 		}
 		c.Violate(key, "normal (assembly) build and portable overlay build produce different results", rp)
+	}
+	// the normal build with AVX2 switched off must agree with itself with AVX2 on
+	if webp.VerifArchHasAVX2() {
+		if w.sse2only.err != nil {
+			c.Violate("pipeline:worker", fmt.Sprintf("pipeline worker (AVX2 off) failed: %v", w.sse2only.err), nil)
+		} else {
+			if !strings.Contains(w.sse2only.hdr, "avx2=false") {
+				c.Violate("pipeline:avx2-switch", "the AVX2-off worker still reports AVX2", map[string]any{"header": w.sse2only.hdr})
+			}
+			for _, name := range order {
+				a, b := nres[name], w.sse2only.res[name]
+				c.D.Evaluations++
+				if a == b {
+					c.Count("pipeline-avx2-off/identical")
+					continue
+				}
+				c.Count("pipeline-avx2-off/DIFFERENT")
+				c.Violate("pipeline-diff:avx2-off", "the same build produces different results with AVX2 on and with AVX2 switched off (SSE2 only)",
+					map[string]any{"case": name, "avx2": a, "sse2_only": b})
+			}
+		}
 	}
 	if len(order) > 0 {
 		c.Sample(map[string]any{"pipeline_case": order[0], "normal": nres[order[0]], "portable": pres[order[0]]})
